@@ -207,21 +207,72 @@ func fan(c *core.Ctx, fn, dm *core.Fn) {
 		wOrder = []string{"a worker is spawned after the await loop started"}
 	}
 	c.Check("R4.close-output", "decode/after-all-tokens", sup.Pos(), wOrder == nil, "the output channel may be closed only after the await loop collected every worker's token: closed earlier, workers panic on send or their lines are lost", wOrder...)
-	// writer goroutine
-	cons, other := c07.RangeConsumers(info, body, opipe)
-	otherBad := 0
-	for _, o := range other {
-		if !c07.Within(o, sup) && !isMakeLHS(body, o) {
-			otherBad++
+	// writer goroutine: the literal that takes the messages off the output channel, by `for s := range opipe` or by
+	// `for { s, ok := <-opipe; if !ok { break }; ... }`
+	var wl *ast.FuncLit
+	var loop ast.Stmt
+	var loopBody *ast.BlockStmt
+	var msg, okVar types.Object
+	var recvAs *ast.AssignStmt
+	ncons, otherBad := 0, 0
+	used := map[*ast.Ident]bool{}
+	for _, fl := range core.FuncLits(body) {
+		if fl == sup {
+			continue
 		}
+		core.Inspect(fl, func(n ast.Node) bool {
+			switch st := n.(type) {
+			case *ast.RangeStmt:
+				if id, ok := ast.Unparen(st.X).(*ast.Ident); ok && info.Uses[id] == opipe {
+					ncons++
+					used[id] = true
+					wl, loop, loopBody, msg = fl, st, st.Body, core.ObjOf(info, st.Key)
+				}
+			case *ast.AssignStmt:
+				if len(st.Lhs) != 2 || len(st.Rhs) != 1 {
+					return true
+				}
+				u, ok := ast.Unparen(st.Rhs[0]).(*ast.UnaryExpr)
+				if !ok || u.Op != token.ARROW {
+					return true
+				}
+				id, ok := ast.Unparen(u.X).(*ast.Ident)
+				if !ok || info.Uses[id] != opipe {
+					return true
+				}
+				var f *ast.ForStmt
+				for _, a := range core.PathTo(fl, st) {
+					switch l := a.(type) {
+					case *ast.ForStmt:
+						f = l
+					case *ast.RangeStmt:
+						f = nil
+					}
+				}
+				if f != nil && f.Cond == nil {
+					ncons++
+					used[id] = true
+					wl, loop, loopBody, recvAs = fl, f, f.Body, st
+					msg, okVar = core.ObjOf(info, st.Lhs[0]), core.ObjOf(info, st.Lhs[1])
+				}
+			}
+			return true
+		})
 	}
-	if len(cons) != 1 || otherBad > 0 {
-		c.Undecidedf("R4.writer", "decode", fn.Decl.Pos(), "expected exactly one goroutine literal ranging over the output channel (found %d, %d other uses)", len(cons), otherBad)
+	core.InspectAll(body, func(n ast.Node) bool {
+		if id, ok := n.(*ast.Ident); ok && info.Uses[id] == opipe && !used[id] && !c07.Within(id, sup) {
+			if call, isCall := parentCall(body, id); !isCall || !isLenCap(info, call) {
+				otherBad++
+			}
+		}
+		return true
+	})
+	if ncons != 1 || otherBad > 0 || msg == nil {
+		c.Undecidedf("R4.writer", "decode", fn.Decl.Pos(), "expected exactly one goroutine literal taking the messages off the output channel (found %d, %d other uses)", ncons, otherBad)
 		return
 	}
-	wl, rs := cons[0].Lit, cons[0].Range
 	gl := cfgq.OfLit(c.Program, info, wl)
-	msg := core.ObjOf(info, rs.Key)
+	rs := loop // position / extent of the message loop
 	isWrite := func(n ast.Node) bool {
 		for _, call := range cfgq.ExecCalls(n) {
 			if f := core.CalleeFunc(info, call); f != nil && f.Pkg() != nil && f.Pkg().Path() == "bufio" && strings.HasPrefix(f.Name(), "Write") && len(call.Args) == 1 && core.ObjOf(info, call.Args[0]) == msg {
@@ -239,8 +290,21 @@ func fan(c *core.Ctx, fn, dm *core.Fn) {
 		}
 		return false
 	}
-	lh, lb := c07.RangeBlocks(gl, rs)
-	c.Check("R4.writer", "decode/writes-every-message", rs.Pos(), !c07.ReachBlock(gl, cfgq.Point{B: lb}, false, isWrite, lh), "every message taken from the output channel must be written to the file: otherwise the lines of that key are omitted")
+	lh, lb := c07.RangeBlocks(gl, loop)
+	iter := cfgq.Point{B: lb}
+	closed := func(b *cfg.Block, i int) bool { return false }
+	if recvAs != nil { // an iteration starts after the receive; the edge on which ok is false leaves the loop legitimately
+		p, found := gl.Find(recvAs)
+		if !found {
+			c.Undecidedf("R4.writer", "decode", recvAs.Pos(), "receive statement not in the control-flow graph")
+			return
+		}
+		iter = cfgq.Point{B: p.B, I: p.I + 1}
+		closed = func(b *cfg.Block, i int) bool {
+			return c07.EdgeFact(gl, b, i, func(f cfgq.Fact) bool { return !f.Val && core.ObjOf(info, f.Expr) == okVar })
+		}
+	}
+	c.Check("R4.writer", "decode/writes-every-message", rs.Pos(), !c07.ReachBlock2(gl, iter, isWrite, closed, lh), "every message taken from the output channel must be written to the file: otherwise the lines of that key are omitted")
 	var wTwice, wFlush []string
 	for _, p := range gl.Points(isWrite) {
 		if wTwice == nil {
@@ -284,7 +348,7 @@ func fan(c *core.Ctx, fn, dm *core.Fn) {
 	isCloseW := func(n ast.Node) bool { return c07.BuiltinCallOn(info, n, "close", wait) }
 	okW, ww := c07.MustPass(gl, gl.Entry(), false, isCloseW)
 	for _, p := range gl.Points(isCloseW) {
-		if _, isD := p.Node().(*ast.DeferStmt); !isD && c07.Within(p.Node(), rs.Body) {
+		if _, isD := p.Node().(*ast.DeferStmt); !isD && c07.Within(p.Node(), loopBody) {
 			okW, ww = false, []string{"done channel closed inside the message loop"}
 		}
 	}
@@ -307,4 +371,18 @@ func isMakeLHS(body ast.Node, id ast.Node) bool {
 		return true
 	})
 	return found
+}
+
+func parentCall(root ast.Node, id ast.Node) (*ast.CallExpr, bool) {
+	path := core.PathTo(root, id)
+	if len(path) < 2 {
+		return nil, false
+	}
+	call, ok := path[len(path)-2].(*ast.CallExpr)
+	return call, ok
+}
+
+func isLenCap(info *types.Info, call *ast.CallExpr) bool {
+	b, ok := core.Callee(info, call).(*types.Builtin)
+	return ok && (b.Name() == "len" || b.Name() == "cap")
 }
